@@ -99,6 +99,7 @@ var _ rpc.Resources
 //@   assert[C02] s.traverse#1: arg0 == gcStateRoot && has(refs, s.rid) && refs[s.rid] == rr && rr.sub == s && rr.indirect == s.indirect && rr.indirectsent == s.indirectsent &&
 //@       rr.state == gcStateNone && sentDiff == ite(s.state == stateSent, 1, 0) && sent == (s.state == stateSent) && card(refs) == 1
 //@   assert[C02] s.traverse#2: arg0 == gcStateDelete && !(rr.indirect > 0 && !(sent && rr.indirectsent == 0))
+//@   assert[C02] return#2: rr.indirect > 0 && !(sent && rr.indirectsent == 0)
 //@   assert[C02] ref.sub.Dispose#1: ref.state == gcStateDelete
 //@   assert[C02] ref.sub.Unsend#1: ref.state == gcStateUnsend
 //@   safety[C15]
